@@ -21,7 +21,9 @@
 #
 # Environment: FUZZ_WORKERS (8), FUZZ_TARGET_DIR (<verif>/target-fuzz), SV_TARGET_DIR
 # (<verif>/target), FUZZ_BUILD_JOBS (cargo default), FUZZ_NO_SEED_CORPUS=1 (start from an empty
-# corpus; for measurements), FUZZ_KEEP=1 (keep the run directory of a clean run).
+# corpus; for measurements), FUZZ_EXTRA_CORPUS=<dir> (additional seed inputs, selector byte(s)
+# included), FUZZ_TIMEOUT (60; seconds per input, libFuzzer -timeout), FUZZ_KEEP=1 (keep the run
+# directory of a clean run).
 set -u
 ROOT="$(dirname "$(dirname "$(realpath "$0")")")"
 ID="${1:-}"; RUNS="${2:-}"; SEED="${3:-${VERIF_SEED:-1}}"
@@ -40,6 +42,7 @@ SVT="${SV_TARGET_DIR:-$ROOT/target}"
 FT="${FUZZ_TARGET_DIR:-$ROOT/target-fuzz}"
 W="${FUZZ_WORKERS:-8}"
 MAX_LEN=4096
+TIMEOUT="${FUZZ_TIMEOUT:-60}"
 [ -n "${FUZZ_BUILD_JOBS:-}" ] && export CARGO_BUILD_JOBS="$FUZZ_BUILD_JOBS"
 mkdir -p "$SVT" "$FT" || exit 2
 
@@ -68,6 +71,9 @@ mkdir -p "$RUN/seed/$T"
 if [ -z "${FUZZ_NO_SEED_CORPUS:-}" ]; then
   "$SV" fuzz-corpus "$RUN/seed" "$MAX_LEN" >"$RUN/corpus.log" 2>&1 || { cat "$RUN/corpus.log" >&2; inconclusive "seed corpus generation failed"; }
 fi
+if [ -n "${FUZZ_EXTRA_CORPUS:-}" ]; then
+  cp -r "$FUZZ_EXTRA_CORPUS/." "$RUN/seed/$T/" || inconclusive "cannot copy FUZZ_EXTRA_CORPUS"
+fi
 NSEED=$(find "$RUN/seed/$T" -type f | wc -l)
 
 # ---- campaign ----
@@ -81,7 +87,7 @@ for i in $(seq 0 $((W - 1))); do
   mkdir -p "$RUN/corpus-$i" "$RUN/artifacts-$i" "$RUN/work-$i"
   cp -r "$RUN/seed/$T/." "$RUN/corpus-$i/"
   SV_CODEC_DIR="$RUN/work-$i" "$BIN" "$RUN/corpus-$i" -runs="$n" -seed="$s" -len_control=0 -max_len=$MAX_LEN \
-    -timeout=60 -rss_limit_mb=4096 -malloc_limit_mb=512 -detect_leaks=0 -reload=0 -print_funcs=0 \
+    -timeout="$TIMEOUT" -rss_limit_mb=4096 -malloc_limit_mb=512 -detect_leaks=0 -reload=0 -print_funcs=0 \
     -artifact_prefix="$RUN/artifacts-$i/" -print_final_stats=1 >"$RUN/log-$i.txt" 2>&1 &
   PIDS+=($!)
 done
@@ -99,33 +105,42 @@ for i in $(seq 0 $((W - 1))); do
   EXECS=$((EXECS + ${e:-0}))
 done
 field() { grep -E '^#[0-9]+[[:space:]]+(DONE|INITED)' "$2" | tail -1 | sed -n "s/.* $1: *\([0-9]*\).*/\1/p"; }
-if [ "$W" -gt 1 ]; then
+NCRASH=$(find "$RUN"/artifacts-[0-9]* -type f | wc -l)
+if [ "$W" -gt 1 ] && [ "$NCRASH" -eq 0 ]; then
   # one load pass over all corpora: coverage and size of their union
   dirs=(); for i in $(seq 0 $((W - 1))); do dirs+=("$RUN/corpus-$i"); done
   mkdir -p "$RUN/work-u" "$RUN/artifacts-u"
-  SV_CODEC_DIR="$RUN/work-u" "$BIN" "${dirs[@]}" -runs=0 -max_len=$MAX_LEN -timeout=60 -rss_limit_mb=4096 \
+  SV_CODEC_DIR="$RUN/work-u" "$BIN" "${dirs[@]}" -runs=0 -max_len=$MAX_LEN -timeout="$TIMEOUT" -rss_limit_mb=4096 \
     -detect_leaks=0 -artifact_prefix="$RUN/artifacts-u/" >"$RUN/log-u.txt" 2>&1
-  STATLOG="$RUN/log-u.txt"
+  COV=$(field cov "$RUN/log-u.txt"); FTS=$(field ft "$RUN/log-u.txt"); CORP=$(field corp "$RUN/log-u.txt")
 else
-  STATLOG="$RUN/log-0.txt"
+  # a worker stopped on an artifact (or W=1): best single worker, from its last status line
+  COV=0; FTS=0; CORP=0
+  for i in $(seq 0 $((W - 1))); do
+    l=$(grep -E '^#[0-9]+[[:space:]]+(DONE|INITED|NEW|REDUCE|pulse|RELOAD)' "$RUN/log-$i.txt" | tail -1)
+    c=$(echo "$l" | sed -n 's/.* cov: *\([0-9]*\).*/\1/p'); c=${c:-0}
+    if [ "$c" -gt "$COV" ]; then
+      COV=$c; FTS=$(echo "$l" | sed -n 's/.* ft: *\([0-9]*\).*/\1/p'); CORP=$(echo "$l" | sed -n 's/.* corp: *\([0-9]*\).*/\1/p')
+    fi
+  done
 fi
-COV=$(field cov "$STATLOG"); FTS=$(field ft "$STATLOG"); CORP=$(field corp "$STATLOG")
-CRASHES=$(find "$RUN"/artifacts-* -type f -name 'crash-*' | wc -l)
-TIMEOUTS=$(find "$RUN"/artifacts-* -type f -name 'timeout-*' | wc -l)
-OOMS=$(find "$RUN"/artifacts-* -type f \( -name 'oom-*' -o -name 'leak-*' \) | wc -l)
+CRASHES=$(find "$RUN"/artifacts-[0-9]* -type f -name 'crash-*' | wc -l)
+TIMEOUTS=$(find "$RUN"/artifacts-[0-9]* -type f -name 'timeout-*' | wc -l)
+OOMS=$(find "$RUN"/artifacts-[0-9]* -type f \( -name 'oom-*' -o -name 'leak-*' \) | wc -l)
 echo "FUZZ property=$ID target=$T runs=$RUNS execs=$EXECS cov=${COV:-0} corpus=${CORP:-0} crashes=$CRASHES ft=${FTS:-0} seed_corpus=$NSEED workers=$W seed=$SEED timeouts=$TIMEOUTS ooms=$OOMS"
 
 # ---- verdict ----
 if [ "$CRASHES" -gt 0 ]; then
   CONFIRMED=0
   SEEN=""
-  for f in $(find "$RUN"/artifacts-* -type f -name 'crash-*' | sort); do
+  for f in $(find "$RUN"/artifacts-[0-9]* -type f -name 'crash-*' | sort); do
     out=$("$SV" fuzz-artifact "$ID" "$f" "$SEED" 2>&1); rc=$?
     rp=$(echo "$out" | sed -n 's/^replay=\([^ ]*\) signature=.*/\1/p' | head -1)
     sig=$(echo "$out" | sed -n 's/^replay=[^ ]* signature=\(.*\)/\1/p' | head -1)
     if [ "$rc" -eq 0 ] && [ -n "$rp" ]; then
       CONFIRMED=$((CONFIRMED + 1))
-      case " $SEEN " in *" $sig "*) continue ;; esac
+      # one replay file per failure signature
+      case " $SEEN " in *" $sig "*) rm -f "$rp"; continue ;; esac
       SEEN="$SEEN $sig"
       echo "VIOLATION property=$ID replay=$rp"
       echo "  signature=$sig"
@@ -142,7 +157,7 @@ if [ "$CRASHES" -gt 0 ]; then
   inconclusive "crash artifacts were not reproduced by the harness replay (run directory kept: $RUN)"
 fi
 if [ "$TIMEOUTS" -gt 0 ] || [ "$OOMS" -gt 0 ]; then
-  inconclusive "libFuzzer stopped on a timeout / out-of-memory artifact: $(find "$RUN"/artifacts-* -type f | head -3 | tr '\n' ' ')"
+  inconclusive "libFuzzer stopped on a timeout / out-of-memory artifact: $(find "$RUN"/artifacts-[0-9]* -type f | head -3 | tr '\n' ' ')"
 fi
 if [ "$BADEXIT" -gt 0 ]; then
   tail -5 "$RUN"/log-*.txt >&2
